@@ -404,6 +404,13 @@ def exec_for(interp, node, frame):
             x = next(it)
         except StopIteration:
             break
+        except (Unsupported, PathAbort):
+            raise
+        except Exception as e:
+            from .interp import PyRaise
+            if isinstance(e, PyRaise) or type(e).__module__.startswith('pyvc'):
+                raise
+            raise PyRaise(e)         # a native iterator (e.g. Path.iterdir of a concrete path) raised
         interp.assign(node.target, x, frame)
         r = interp.exec_block(node.body, frame)
         if r is not None:
